@@ -175,7 +175,8 @@ def main(argv=None):
     for line in lines:
         print(line)
     if nviol:
-        status = 1 if status == 0 else status
+        # a violation (with its replay) stands even if another scenario could not be run
+        status = 1
 
     evidence = mod.evidence(args.tier, seed, scens, [r for r in results], time.time() - t0)
     evidence['violations'] = nviol
